@@ -56,10 +56,17 @@ impl Model {
 }
 
 /// applies the history to the real structure and the model, checking every query after every operation
-pub fn check_history(n: usize, ops: &[(u8, u8)]) -> Result<bool, String> {
+pub fn check_history(n: usize, ops: &[(u8, u8)]) -> Result<bool, String> { check_history_after(n, &[], ops) }
+
+/// `prefix` is applied without checks (it builds a large structure), then every step of `ops` is checked in full.
+pub fn check_history_after(n: usize, prefix: &[(u8, u8)], ops: &[(u8, u8)]) -> Result<bool, String> {
    let mut uf = TrRelUnionFind::<u8>::default();
    let mut model = Model::new(n);
    let mut interesting = false;
+   for &(x, y) in prefix {
+      catch(|| uf.add(x, y)).map_err(|e| format!("add({x},{y}) panicked while building the prefix {prefix:?}: {e}"))?;
+      model.add(x as usize, y as usize);
+   }
    for (step, &(x, y)) in ops.iter().enumerate() {
       // (the return value of `add` is not part of the property: it is `true` for every pair of distinct known classes)
       catch(|| uf.add(x, y)).map_err(|e| format!("add({x},{y}) panicked at step {step} of {ops:?}: {e}"))?;
@@ -359,6 +366,69 @@ pub fn run(a: &Args, rep: &mut Report) {
    }
    rep.evaluations += rnd.get();
    rep.nontrivial += rnd_int.get();
+   // ---- large classes: a ring of m members (one class after the closing edge), then edges among ring members and a few
+   // outside elements, biased towards back edges that close cycles through the large class; sizes around powers of two
+   {
+      let cases = if a.tier == "quick" { 160 } else { 3000 };
+      let mut runner = TestRunner::new(Config { cases, failure_persistence: None, rng_seed: RngSeed::Fixed(a.seed ^ 0xB16), ..Config::default() });
+      let strat = (prop_oneof![2 => 0u32..6, 3 => 4u32..7], -3i32..=3, proptest::collection::vec((any::<u8>(), any::<u8>(), 0u8..10), 6..18), any::<bool>(), any::<u32>()).prop_map(|(k, d, mut raw, structured, sel)| {
+         let m = (((2i32 << k) + d).clamp(2, 130)) as usize; // 2, 4, .., 128 (+- 3), up to 130
+         if structured {
+            // an element that enters the ring and has a successor of its own, an element the ring leads to that has a
+            // predecessor of its own, then (somewhere later) the edge between the two that closes a cycle through the ring:
+            // kinds 10.. are taken literally below
+            let (y, x, s, p_) = (m as u8 + (sel % 8) as u8, m as u8 + ((sel >> 3) % 8) as u8, m as u8 + ((sel >> 6) % 8) as u8, m as u8 + ((sel >> 9) % 8) as u8);
+            let (ri, rj) = (((sel >> 12) as usize % m) as u8, ((sel >> 20) as usize % m) as u8);
+            let mut pat = vec![(y, ri, 10u8), (rj, x, 10), (y, s, 10), (p_, x, 10)];
+            let rot = (sel >> 28) as usize % 4;
+            pat.rotate_left(rot);
+            let at = raw.len() / 3;
+            for (i, e) in pat.into_iter().enumerate() {
+               raw.insert((at + i).min(raw.len()), e);
+            }
+            let close_at = (at + 4 + (sel as usize % 3)).min(raw.len());
+            raw.insert(close_at, (x, y, 10));
+         }
+         let n = m + 8;
+         let mut prefix: Vec<(u8, u8)> = (0..m - 1).map(|i| (i as u8, i as u8 + 1)).collect();
+         prefix.push((m as u8 - 1, 0));
+         let elem = |v: u8| -> u8 { if v % 10 < 3 { v % m as u8 } else { m as u8 + v % 8 } };
+         let mut ops: Vec<(u8, u8)> = vec![];
+         for (x, y, kind) in raw {
+            let op = match kind {
+               0 | 1 | 2 if !ops.is_empty() => {
+                  let (a, b) = ops[(x as usize) % ops.len()];
+                  (b, a)
+               },
+               3 => (elem(x), elem(x)),
+               10 => (x, y),
+               _ => (elem(x), elem(y)),
+            };
+            ops.push(op);
+         }
+         (n, m, prefix, ops)
+      });
+      let big = std::cell::Cell::new(0u64);
+      let big_int = std::cell::Cell::new(0u64);
+      let res = runner.run(&strat, |(n, m, prefix, ops)| {
+         big.set(big.get() + 1);
+         match check_history_after(n, &prefix, &ops) {
+            Ok(i) => {
+               if i {
+                  big_int.set(big_int.get() + 1);
+               }
+               Ok(())
+            },
+            Err(e) => Err(TestCaseError::fail(format!("after a ring of {m} members: {e}"))),
+         }
+      });
+      if let Err(e) = res {
+         rep.violation(serde_json::json!({"structure": "TrRelUnionFind", "failure": format!("{e}")}));
+      }
+      rep.evaluations += big.get();
+      rep.nontrivial += big_int.get();
+      rep.count("large_class_histories(ring of 2..130 members, then 6-17 adds)", big.get());
+   }
    rep.count("random_trrel_uf_histories", rnd.get());
    rep.count("histories_with_cycle_closing_add_over_merged_classes", rnd_int.get() + interesting_n);
    // ---- UnionFind
